@@ -1,1 +1,2078 @@
-//! engine correspondence harness (under construction)
+//! Correspondence harness for the shared engine model (C01, C02, C04, C05, C07).
+//!
+//! Mirrors `coq/theories/Engine/Lang.v`: a closed step language whose programs are built here
+//! as REAL typed ironbeam pipelines through the public API and run with `collect_seq` /
+//! `collect_par`.  JSON format of values / functions / steps / sources: see `Engine/Decode.v`.
+use ironbeam::collection::LiftableCombiner;
+use ironbeam::combiners::DistinctSet;
+use ironbeam::{CombineFn, Max, Min, PCollection, Pipeline, Sum, TopK, from_vec, read_jsonl_streaming};
+use serde::{Deserialize, Serialize};
+use serde_json::{Value, json};
+use std::panic::{AssertUnwindSafe, catch_unwind};
+use std::sync::atomic::{AtomicU64, Ordering};
+use std::sync::mpsc;
+use std::time::Duration;
+
+use crate::SplitMix64;
+
+// ------------------------------------------------------------------ values
+
+/// Variant order matters: the derived `Ord` is what `Lang.val_cmp` mirrors.
+#[derive(Clone, PartialEq, Eq, Hash, PartialOrd, Ord, Debug, Serialize, Deserialize)]
+pub enum Val {
+    Int(i64),
+    Pair(Box<Val>, Box<Val>),
+    List(Vec<Val>),
+    None,
+    Some(Box<Val>),
+}
+
+impl Default for Val {
+    fn default() -> Self {
+        Val::Int(0)
+    }
+}
+/// `Int + Int`; anything else: the left operand (Lang.comb_sum: `a + vint v`, vint of a non-int = 0,
+/// and the accumulator is always an Int)
+impl std::ops::Add for Val {
+    type Output = Val;
+    fn add(self, rhs: Val) -> Val {
+        match (&self, &rhs) {
+            (Val::Int(a), Val::Int(b)) => Val::Int(a + b),
+            _ => self,
+        }
+    }
+}
+
+/// A second value type, so that a mis-ordered value operator really hits a downcast panic.
+#[derive(Clone, PartialEq, Eq, Hash, PartialOrd, Ord, Debug)]
+pub struct Wrapped(pub Val);
+
+pub fn pair(a: Val, b: Val) -> Val {
+    Val::Pair(Box::new(a), Box::new(b))
+}
+
+pub fn val_json(v: &Val) -> Value {
+    match v {
+        Val::Int(z) => json!(z),
+        Val::Pair(a, b) => json!(["p", val_json(a), val_json(b)]),
+        Val::List(l) => json!(["l", l.iter().map(val_json).collect::<Vec<_>>()]),
+        Val::None => Value::Null,
+        Val::Some(x) => json!(["s", val_json(x)]),
+    }
+}
+
+type R<T> = Result<T, String>;
+fn bad<T>(what: &str, j: &Value) -> R<T> {
+    Err(format!("bad {what}: {j}"))
+}
+fn tag_of(j: &Value) -> Option<(&str, &[Value])> {
+    let a = j.as_array()?;
+    let t = a.first()?.as_str()?;
+    Some((t, &a[1..]))
+}
+const BOUND: i64 = 1 << 40;
+fn small(j: &Value) -> R<i64> {
+    match j.as_i64() {
+        Some(z) if z.abs() < BOUND => Ok(z),
+        _ => bad("int", j),
+    }
+}
+fn pos(j: &Value) -> R<i64> {
+    match j.as_i64() {
+        Some(z) if z > 0 && z < BOUND => Ok(z),
+        _ => bad("positive int", j),
+    }
+}
+fn nat(j: &Value) -> R<usize> {
+    match j.as_i64() {
+        Some(z) if (0..1_000_000).contains(&z) => Ok(z as usize),
+        _ => bad("nat", j),
+    }
+}
+
+pub fn parse_val(j: &Value) -> R<Val> {
+    if j.is_null() {
+        return Ok(Val::None);
+    }
+    if j.is_i64() {
+        return Ok(Val::Int(small(j)?));
+    }
+    match tag_of(j) {
+        Some(("p", [a, b])) => Ok(pair(parse_val(a)?, parse_val(b)?)),
+        Some(("l", [l])) => Ok(Val::List(parse_vals(l)?)),
+        Some(("s", [x])) => Ok(Val::Some(Box::new(parse_val(x)?))),
+        _ => bad("value", j),
+    }
+}
+pub fn parse_vals(j: &Value) -> R<Vec<Val>> {
+    match j.as_array() {
+        Some(a) => a.iter().map(parse_val).collect(),
+        None => bad("value list", j),
+    }
+}
+
+// ------------------------------------------------------------------ element functions (Lang.v)
+
+#[derive(Clone, Debug, PartialEq)]
+pub enum EFun {
+    Id,
+    Add(i64),
+    Mul(i64),
+    Mod(i64),
+    Fst,
+    Snd,
+    Swap,
+    Dup,
+    Sum,
+    Len,
+    Wrap,
+    KeyMod(i64),
+    Comp(Box<EFun>, Box<EFun>),
+}
+#[derive(Clone, Debug, PartialEq)]
+pub enum PFun {
+    True,
+    False,
+    ModEq(i64, i64),
+    Lt(i64),
+    Not(Box<PFun>),
+}
+#[derive(Clone, Debug, PartialEq)]
+pub enum GFun {
+    Repeat(usize),
+    UpTo(i64),
+    Elems,
+    None,
+}
+#[derive(Clone, Debug, PartialEq)]
+pub enum BFun {
+    Each(EFun),
+    Rev,
+    DropLast,
+}
+#[derive(Clone, Debug, PartialEq)]
+pub enum Cid {
+    Sum,
+    Count,
+    Min,
+    Max,
+    TopK(usize),
+    Distinct,
+    SumMod(i64),
+    Gcd,
+}
+impl Cid {
+    pub fn list_out(&self) -> bool {
+        matches!(self, Cid::TopK(_) | Cid::Distinct)
+    }
+}
+
+pub fn zsum(l: &[Val]) -> i64 {
+    l.iter().fold(0i64, |a, v| if let Val::Int(z) = v { a + z } else { a })
+}
+pub fn ikey(v: &Val) -> i64 {
+    match v {
+        Val::Int(z) => *z,
+        Val::Pair(a, _) => ikey(a),
+        Val::List(l) => l.len() as i64,
+        Val::None => 0,
+        Val::Some(x) => ikey(x),
+    }
+}
+pub fn vint(v: &Val) -> i64 {
+    if let Val::Int(z) = v { *z } else { 0 }
+}
+
+pub fn ef(f: &EFun, v: &Val) -> Val {
+    match f {
+        EFun::Id => v.clone(),
+        EFun::Add(c) => match v {
+            Val::Int(z) => Val::Int(z + c),
+            _ => v.clone(),
+        },
+        EFun::Mul(c) => match v {
+            Val::Int(z) => Val::Int(z * c),
+            _ => v.clone(),
+        },
+        EFun::Mod(m) => match v {
+            Val::Int(z) => Val::Int(z.rem_euclid(*m)),
+            _ => v.clone(),
+        },
+        EFun::Fst => match v {
+            Val::Pair(a, _) => (**a).clone(),
+            _ => v.clone(),
+        },
+        EFun::Snd => match v {
+            Val::Pair(_, b) => (**b).clone(),
+            _ => v.clone(),
+        },
+        EFun::Swap => match v {
+            Val::Pair(a, b) => Val::Pair(b.clone(), a.clone()),
+            _ => v.clone(),
+        },
+        EFun::Dup => pair(v.clone(), v.clone()),
+        EFun::Sum => match v {
+            Val::List(l) => Val::Int(zsum(l)),
+            _ => v.clone(),
+        },
+        EFun::Len => match v {
+            Val::List(l) => Val::Int(l.len() as i64),
+            _ => v.clone(),
+        },
+        EFun::Wrap => Val::List(vec![v.clone()]),
+        EFun::KeyMod(m) => pair(Val::Int(ikey(v).rem_euclid(*m)), v.clone()),
+        EFun::Comp(f, g) => ef(g, &ef(f, v)),
+    }
+}
+pub fn pf(p: &PFun, v: &Val) -> bool {
+    match p {
+        PFun::True => true,
+        PFun::False => false,
+        PFun::ModEq(m, r) => ikey(v).rem_euclid(*m) == *r,
+        PFun::Lt(c) => ikey(v) < *c,
+        PFun::Not(q) => !pf(q, v),
+    }
+}
+pub fn gf(g: &GFun, v: &Val) -> Vec<Val> {
+    match g {
+        GFun::Repeat(n) => vec![v.clone(); *n],
+        GFun::UpTo(m) => (0..ikey(v).rem_euclid(*m)).map(Val::Int).collect(),
+        GFun::Elems => match v {
+            Val::List(l) => l.clone(),
+            Val::Pair(k, b) => match &**b {
+                Val::List(l) => l.iter().map(|x| pair((**k).clone(), x.clone())).collect(),
+                _ => vec![v.clone()],
+            },
+            _ => vec![v.clone()],
+        },
+        GFun::None => vec![],
+    }
+}
+pub fn bf(b: &BFun, l: &[Val]) -> Vec<Val> {
+    match b {
+        BFun::Each(f) => l.iter().map(|x| ef(f, x)).collect(),
+        BFun::Rev => l.iter().rev().cloned().collect(),
+        BFun::DropLast => l[..l.len().saturating_sub(1)].to_vec(),
+    }
+}
+
+pub fn parse_efun(j: &Value) -> R<EFun> {
+    Ok(match tag_of(j) {
+        Some(("id", [])) => EFun::Id,
+        Some(("add", [c])) => EFun::Add(small(c)?),
+        Some(("mul", [c])) => EFun::Mul(small(c)?),
+        Some(("mod", [m])) => EFun::Mod(pos(m)?),
+        Some(("fst", [])) => EFun::Fst,
+        Some(("snd", [])) => EFun::Snd,
+        Some(("swap", [])) => EFun::Swap,
+        Some(("dup", [])) => EFun::Dup,
+        Some(("sum", [])) => EFun::Sum,
+        Some(("len", [])) => EFun::Len,
+        Some(("wrap", [])) => EFun::Wrap,
+        Some(("keymod", [m])) => EFun::KeyMod(pos(m)?),
+        Some(("comp", [f, g])) => EFun::Comp(Box::new(parse_efun(f)?), Box::new(parse_efun(g)?)),
+        _ => return bad("efun", j),
+    })
+}
+pub fn efun_json(f: &EFun) -> Value {
+    match f {
+        EFun::Id => json!(["id"]),
+        EFun::Add(c) => json!(["add", c]),
+        EFun::Mul(c) => json!(["mul", c]),
+        EFun::Mod(m) => json!(["mod", m]),
+        EFun::Fst => json!(["fst"]),
+        EFun::Snd => json!(["snd"]),
+        EFun::Swap => json!(["swap"]),
+        EFun::Dup => json!(["dup"]),
+        EFun::Sum => json!(["sum"]),
+        EFun::Len => json!(["len"]),
+        EFun::Wrap => json!(["wrap"]),
+        EFun::KeyMod(m) => json!(["keymod", m]),
+        EFun::Comp(f, g) => json!(["comp", efun_json(f), efun_json(g)]),
+    }
+}
+pub fn parse_pfun(j: &Value) -> R<PFun> {
+    Ok(match tag_of(j) {
+        Some(("true", [])) => PFun::True,
+        Some(("false", [])) => PFun::False,
+        Some(("modeq", [m, r])) => PFun::ModEq(pos(m)?, small(r)?),
+        Some(("lt", [c])) => PFun::Lt(small(c)?),
+        Some(("not", [p])) => PFun::Not(Box::new(parse_pfun(p)?)),
+        _ => return bad("pfun", j),
+    })
+}
+pub fn pfun_json(p: &PFun) -> Value {
+    match p {
+        PFun::True => json!(["true"]),
+        PFun::False => json!(["false"]),
+        PFun::ModEq(m, r) => json!(["modeq", m, r]),
+        PFun::Lt(c) => json!(["lt", c]),
+        PFun::Not(q) => json!(["not", pfun_json(q)]),
+    }
+}
+pub fn parse_gfun(j: &Value) -> R<GFun> {
+    Ok(match tag_of(j) {
+        Some(("repeat", [n])) => GFun::Repeat(nat(n)?),
+        Some(("upto", [m])) => GFun::UpTo(pos(m)?),
+        Some(("elems", [])) => GFun::Elems,
+        Some(("none", [])) => GFun::None,
+        _ => return bad("gfun", j),
+    })
+}
+pub fn gfun_json(g: &GFun) -> Value {
+    match g {
+        GFun::Repeat(n) => json!(["repeat", n]),
+        GFun::UpTo(m) => json!(["upto", m]),
+        GFun::Elems => json!(["elems"]),
+        GFun::None => json!(["none"]),
+    }
+}
+pub fn parse_bfun(j: &Value) -> R<BFun> {
+    Ok(match tag_of(j) {
+        Some(("each", [f])) => BFun::Each(parse_efun(f)?),
+        Some(("rev", [])) => BFun::Rev,
+        Some(("droplast", [])) => BFun::DropLast,
+        _ => return bad("bfun", j),
+    })
+}
+pub fn bfun_json(b: &BFun) -> Value {
+    match b {
+        BFun::Each(f) => json!(["each", efun_json(f)]),
+        BFun::Rev => json!(["rev"]),
+        BFun::DropLast => json!(["droplast"]),
+    }
+}
+pub fn parse_cid(j: &Value) -> R<Cid> {
+    Ok(match tag_of(j) {
+        Some(("sum", [])) => Cid::Sum,
+        Some(("count", [])) => Cid::Count,
+        Some(("min", [])) => Cid::Min,
+        Some(("max", [])) => Cid::Max,
+        Some(("topk", [k])) => Cid::TopK(nat(k)?),
+        Some(("distinct", [])) => Cid::Distinct,
+        Some(("summod", [m])) => Cid::SumMod(pos(m)?),
+        Some(("gcd", [])) => Cid::Gcd,
+        _ => return bad("cid", j),
+    })
+}
+pub fn cid_json(c: &Cid) -> Value {
+    match c {
+        Cid::Sum => json!(["sum"]),
+        Cid::Count => json!(["count"]),
+        Cid::Min => json!(["min"]),
+        Cid::Max => json!(["max"]),
+        Cid::TopK(k) => json!(["topk", k]),
+        Cid::Distinct => json!(["distinct"]),
+        Cid::SumMod(m) => json!(["summod", m]),
+        Cid::Gcd => json!(["gcd"]),
+    }
+}
+
+// ------------------------------------------------------------------ steps, sources, typing
+
+#[derive(Clone, Copy, Debug, PartialEq, Eq)]
+pub enum Shape {
+    U,
+    KV,
+    KG,
+    KW,
+    L,
+}
+#[derive(Clone, Copy, Debug, PartialEq, Eq)]
+pub enum JoinKind {
+    Inner,
+    Left,
+    Right,
+    Full,
+}
+impl JoinKind {
+    pub fn name(self) -> &'static str {
+        match self {
+            JoinKind::Inner => "inner",
+            JoinKind::Left => "left",
+            JoinKind::Right => "right",
+            JoinKind::Full => "full",
+        }
+    }
+}
+
+#[derive(Clone, Debug, PartialEq)]
+pub enum Step {
+    Map(EFun),
+    Filter(PFun),
+    FlatMap(GFun),
+    KeyBy(EFun),
+    Unkey,
+    MapValues(EFun),
+    FilterValues(PFun),
+    MapValuesW(EFun),
+    FilterValuesW(PFun),
+    MapValuesBack(EFun),
+    MapBatches(usize, BFun),
+    MapValuesBatches(usize, BFun),
+    GroupByKey,
+    CombineValues(Cid),
+    CombineValuesLifted(Cid),
+    CombineGlobally(Cid, bool, Option<usize>),
+    Distinct,
+    DistinctPerKey,
+    TopKPerKey(usize),
+    GroupsToList,
+    Join(JoinKind, Vec<Step>, Vec<Val>),
+}
+
+#[derive(Clone, Debug, PartialEq)]
+pub enum Src {
+    Vec(Shape, Vec<Val>),
+    Sharded(Shape, Vec<Vec<Val>>, usize),
+}
+impl Src {
+    pub fn shape(&self) -> Shape {
+        match self {
+            Src::Vec(s, _) | Src::Sharded(s, _, _) => *s,
+        }
+    }
+    pub fn len(&self) -> usize {
+        match self {
+            Src::Vec(_, d) => d.len(),
+            Src::Sharded(_, sh, _) => sh.iter().map(Vec::len).sum(),
+        }
+    }
+    pub fn data(&self) -> Vec<Val> {
+        match self {
+            Src::Vec(_, d) => d.clone(),
+            Src::Sharded(_, sh, _) => sh.concat(),
+        }
+    }
+}
+
+pub fn parse_step(j: &Value) -> R<Step> {
+    Ok(match tag_of(j) {
+        Some(("map", [f])) => Step::Map(parse_efun(f)?),
+        Some(("filter", [p])) => Step::Filter(parse_pfun(p)?),
+        Some(("flat_map", [g])) => Step::FlatMap(parse_gfun(g)?),
+        Some(("key_by", [f])) => Step::KeyBy(parse_efun(f)?),
+        Some(("unkey", [])) => Step::Unkey,
+        Some(("map_values", [f])) => Step::MapValues(parse_efun(f)?),
+        Some(("filter_values", [p])) => Step::FilterValues(parse_pfun(p)?),
+        Some(("map_values_w", [f])) => Step::MapValuesW(parse_efun(f)?),
+        Some(("filter_values_w", [p])) => Step::FilterValuesW(parse_pfun(p)?),
+        Some(("map_values_back", [f])) => Step::MapValuesBack(parse_efun(f)?),
+        Some(("map_batches", [n, b])) => Step::MapBatches(nat(n)?, parse_bfun(b)?),
+        Some(("map_values_batches", [n, b])) => Step::MapValuesBatches(nat(n)?, parse_bfun(b)?),
+        Some(("group_by_key", [])) => Step::GroupByKey,
+        Some(("combine_values", [c])) => Step::CombineValues(parse_cid(c)?),
+        Some(("combine_values_lifted", [c])) => Step::CombineValuesLifted(parse_cid(c)?),
+        Some(("combine_globally", [c, l, f])) => {
+            let lifted = match l.as_bool() {
+                Some(b) => b,
+                None => return bad("lifted flag", l),
+            };
+            let fanout = if f.is_null() { None } else { Some(nat(f)?) };
+            Step::CombineGlobally(parse_cid(c)?, lifted, fanout)
+        }
+        Some(("distinct", [])) => Step::Distinct,
+        Some(("distinct_per_key", [])) => Step::DistinctPerKey,
+        Some(("top_k_per_key", [k])) => Step::TopKPerKey(nat(k)?),
+        Some(("groups_to_list", [])) => Step::GroupsToList,
+        Some(("join", [k, rs, rd])) => {
+            let kind = match k.as_str() {
+                Some("inner") => JoinKind::Inner,
+                Some("left") => JoinKind::Left,
+                Some("right") => JoinKind::Right,
+                Some("full") => JoinKind::Full,
+                _ => return bad("join kind", k),
+            };
+            Step::Join(kind, parse_steps(rs)?, parse_vals(rd)?)
+        }
+        _ => return bad("step", j),
+    })
+}
+pub fn parse_steps(j: &Value) -> R<Vec<Step>> {
+    match j.as_array() {
+        Some(a) => a.iter().map(parse_step).collect(),
+        None => bad("steps", j),
+    }
+}
+pub fn step_json(s: &Step) -> Value {
+    match s {
+        Step::Map(f) => json!(["map", efun_json(f)]),
+        Step::Filter(p) => json!(["filter", pfun_json(p)]),
+        Step::FlatMap(g) => json!(["flat_map", gfun_json(g)]),
+        Step::KeyBy(f) => json!(["key_by", efun_json(f)]),
+        Step::Unkey => json!(["unkey"]),
+        Step::MapValues(f) => json!(["map_values", efun_json(f)]),
+        Step::FilterValues(p) => json!(["filter_values", pfun_json(p)]),
+        Step::MapValuesW(f) => json!(["map_values_w", efun_json(f)]),
+        Step::FilterValuesW(p) => json!(["filter_values_w", pfun_json(p)]),
+        Step::MapValuesBack(f) => json!(["map_values_back", efun_json(f)]),
+        Step::MapBatches(n, b) => json!(["map_batches", n, bfun_json(b)]),
+        Step::MapValuesBatches(n, b) => json!(["map_values_batches", n, bfun_json(b)]),
+        Step::GroupByKey => json!(["group_by_key"]),
+        Step::CombineValues(c) => json!(["combine_values", cid_json(c)]),
+        Step::CombineValuesLifted(c) => json!(["combine_values_lifted", cid_json(c)]),
+        Step::CombineGlobally(c, l, f) => json!(["combine_globally", cid_json(c), l, f]),
+        Step::Distinct => json!(["distinct"]),
+        Step::DistinctPerKey => json!(["distinct_per_key"]),
+        Step::TopKPerKey(k) => json!(["top_k_per_key", k]),
+        Step::GroupsToList => json!(["groups_to_list"]),
+        Step::Join(k, rs, rd) => json!(["join", k.name(), steps_json(rs), vals_json(rd)]),
+    }
+}
+pub fn steps_json(s: &[Step]) -> Value {
+    Value::Array(s.iter().map(step_json).collect())
+}
+pub fn vals_json(v: &[Val]) -> Value {
+    Value::Array(v.iter().map(val_json).collect())
+}
+fn shape_name(s: Shape) -> R<&'static str> {
+    match s {
+        Shape::U => Ok("u"),
+        Shape::KV => Ok("kv"),
+        Shape::KG => Ok("kg"),
+        _ => Err("source shape".into()),
+    }
+}
+pub fn src_json(s: &Src) -> Value {
+    match s {
+        Src::Vec(sh, d) => json!(["vec", shape_name(*sh).unwrap(), vals_json(d)]),
+        Src::Sharded(sh, shards, total) => json!([
+            "sharded",
+            shape_name(*sh).unwrap(),
+            shards.iter().map(|s| vals_json(s)).collect::<Vec<_>>(),
+            total
+        ]),
+    }
+}
+pub fn parse_src(j: &Value) -> R<Src> {
+    let shape = |s: &Value| match s.as_str() {
+        Some("u") => Ok(Shape::U),
+        Some("kv") => Ok(Shape::KV),
+        Some("kg") => Ok(Shape::KG),
+        _ => bad("source shape", s),
+    };
+    let src = match tag_of(j) {
+        Some(("vec", [s, d])) => Src::Vec(shape(s)?, parse_vals(d)?),
+        Some(("sharded", [s, sh, n])) => {
+            let sh = match sh.as_array() {
+                Some(a) => a.iter().map(parse_vals).collect::<R<Vec<_>>>()?,
+                None => return bad("shards", sh),
+            };
+            let shp = shape(s)?;
+            if shp == Shape::KG {
+                return bad("sharded source shape", s);
+            }
+            Src::Sharded(shp, sh, nat(n)?)
+        }
+        _ => return bad("source", j),
+    };
+    // rows must have the row type of the shape
+    let ok_row = |v: &Val| match src.shape() {
+        Shape::U => true,
+        Shape::KV => matches!(v, Val::Pair(..)),
+        Shape::KG => matches!(v, Val::Pair(_, b) if matches!(**b, Val::List(_))),
+        _ => false,
+    };
+    if !src.data().iter().all(ok_row) {
+        return Err("source row does not have the shape's row type".into());
+    }
+    Ok(src)
+}
+
+/// Typing rules of the step language (the model's `compile` assumes them).
+pub fn step_shape(s: &Step, t: Shape) -> R<Shape> {
+    use Shape::*;
+    let need = |ok: bool, out: Shape| if ok { Ok(out) } else { Err(format!("ill-typed step {s:?} on {t:?}")) };
+    match s {
+        Step::Map(_) | Step::KeyBy(_) | Step::MapBatches(..) | Step::CombineGlobally(..) if t != U => {
+            need(false, U)
+        }
+        Step::Map(_) => Ok(U),
+        Step::KeyBy(_) => Ok(KV),
+        Step::MapBatches(..) => Ok(U),
+        Step::CombineGlobally(c, _, _) => Ok(if c.list_out() { L } else { U }),
+        Step::Filter(_) => Ok(t),
+        Step::FlatMap(g) => match (g, t) {
+            (GFun::UpTo(_), U) => Ok(U),
+            (GFun::Elems, U) => Ok(U),
+            (GFun::Elems, KG) => Ok(KV),
+            (GFun::Elems, L) => Ok(U),
+            (GFun::Repeat(_) | GFun::None, U | KV | KW | L) => Ok(t),
+            _ => need(false, t),
+        },
+        Step::Unkey => need(t == KV, U),
+        Step::MapValues(_) | Step::FilterValues(_) | Step::MapValuesBatches(..) => need(t == KV, KV),
+        Step::MapValuesW(_) => need(t == KV, KW),
+        Step::FilterValuesW(_) => need(t == KW, KW),
+        Step::MapValuesBack(_) => need(t == KW, KV),
+        Step::GroupByKey => need(t == KV, KG),
+        Step::CombineValues(c) => need(t == KV, if c.list_out() { KG } else { KV }),
+        Step::CombineValuesLifted(c) => need(t == KG, if c.list_out() { KG } else { KV }),
+        Step::Distinct => need(t == U || t == KV, t),
+        Step::DistinctPerKey => need(t == KV, KV),
+        Step::TopKPerKey(_) => need(t == KV, KG),
+        Step::GroupsToList => need(t == KG, KV),
+        Step::Join(_, rs, _) => {
+            if t != KV || steps_shape(rs, KV)? != KV {
+                return need(false, KV);
+            }
+            Ok(KV)
+        }
+    }
+}
+pub fn steps_shape(steps: &[Step], mut t: Shape) -> R<Shape> {
+    for s in steps {
+        t = step_shape(s, t)?;
+    }
+    Ok(t)
+}
+
+// ---- classifiers mirrored in Engine/Canon.v (used only to steer generators and to tag cases)
+
+pub fn elementwise_step(s: &Step) -> bool {
+    match s {
+        Step::Map(_) | Step::Filter(_) | Step::FlatMap(_) | Step::KeyBy(_) | Step::Unkey
+        | Step::MapValues(_) | Step::FilterValues(_) | Step::MapValuesW(_) | Step::FilterValuesW(_)
+        | Step::MapValuesBack(_) | Step::GroupsToList => true,
+        Step::MapBatches(_, BFun::Each(_)) | Step::MapValuesBatches(_, BFun::Each(_)) => true,
+        _ => false,
+    }
+}
+pub fn has_barrier(steps: &[Step]) -> bool {
+    !steps.iter().all(elementwise_step)
+}
+/// the step iterates a HashMap / HashSet: row order (or list order) downstream is arbitrary
+pub fn hash_step(s: &Step) -> bool {
+    matches!(
+        s,
+        Step::GroupByKey | Step::CombineValues(_) | Step::CombineValuesLifted(_) | Step::Distinct
+            | Step::DistinctPerKey | Step::TopKPerKey(_) | Step::Join(..)
+            | Step::CombineGlobally(Cid::Distinct, _, _)
+    )
+}
+/// a batch function that is not element-wise: the result legitimately depends on the partitioning
+pub fn partition_dependent(steps: &[Step]) -> bool {
+    steps.iter().any(|s| match s {
+        Step::MapBatches(_, b) | Step::MapValuesBatches(_, b) => !matches!(b, BFun::Each(_)),
+        Step::Join(_, rs, _) => partition_dependent(rs),
+        _ => false,
+    })
+}
+pub fn is_join(s: &Step) -> bool {
+    matches!(s, Step::Join(..))
+}
+/// a join fed by another join (on either side)
+pub fn nested_join(steps: &[Step]) -> bool {
+    let mut seen = false;
+    for s in steps {
+        if let Step::Join(_, rs, _) = s {
+            if seen || rs.iter().any(is_join) {
+                return true;
+            }
+            seen = true;
+        }
+    }
+    false
+}
+/// cost hint of a value-only / key-preserving / reorder-safe operator, None for any other operator
+fn vo_cost(s: &Step) -> Option<Vec<Option<u8>>> {
+    // one entry per stateless operator the step compiles to; None entry = not value-only;
+    // outer None = the step is a barrier
+    Some(match s {
+        Step::MapValues(_) | Step::MapValuesW(_) | Step::MapValuesBack(_) => vec![Some(3)],
+        Step::FilterValues(_) | Step::FilterValuesW(_) => vec![Some(1)],
+        Step::MapValuesBatches(..) => vec![Some(2)],
+        Step::Map(_) | Step::Filter(_) | Step::FlatMap(_) | Step::KeyBy(_) | Step::Unkey
+        | Step::MapBatches(..) | Step::GroupsToList => vec![None],
+        _ => return None,
+    })
+}
+/// The open known-finding class "C02-reorder": in the chain that is finally planned (the steps
+/// after the last join; a join freezes everything upstream unoptimised) some maximal run of
+/// stateless operators consists only of value-only operators, has length >= 2, and its stable
+/// sort by (cost != 1, cost) differs from the written order.
+pub fn reorder_changes(steps: &[Step]) -> bool {
+    let start = steps.iter().rposition(is_join).map_or(0, |i| i + 1);
+    // operators of the planned chain, barriers as separators; the join's own map and the
+    // flat_map tails of distinct / distinct_per_key are non-value-only operators
+    let mut runs: Vec<Vec<Option<u8>>> = vec![vec![]];
+    if start > 0 {
+        runs.last_mut().unwrap().push(None);
+    }
+    for s in &steps[start..] {
+        match vo_cost(s) {
+            Some(ops) => runs.last_mut().unwrap().extend(ops),
+            None => {
+                runs.push(vec![]);
+                if matches!(s, Step::Distinct | Step::DistinctPerKey) {
+                    runs.last_mut().unwrap().push(None);
+                }
+            }
+        }
+    }
+    runs.iter().any(|run| {
+        if run.len() < 2 || run.iter().any(Option::is_none) {
+            return false;
+        }
+        let costs: Vec<u8> = run.iter().map(|c| c.unwrap()).collect();
+        let mut sorted = costs.clone();
+        sorted.sort_by_key(|c| (*c != 1, *c));
+        sorted != costs
+    })
+}
+
+// ------------------------------------------------------------------ user combiners (Lang.comb_*)
+
+#[derive(Clone)]
+pub struct CountC;
+impl CombineFn<Val, i64, Val> for CountC {
+    fn create(&self) -> i64 {
+        0
+    }
+    fn add_input(&self, acc: &mut i64, _v: Val) {
+        *acc += 1;
+    }
+    fn merge(&self, acc: &mut i64, other: i64) {
+        *acc += other;
+    }
+    fn finish(&self, acc: i64) -> Val {
+        Val::Int(acc)
+    }
+}
+impl LiftableCombiner<Val, i64, Val> for CountC {
+    fn build_from_group(&self, values: &[Val]) -> i64 {
+        values.len() as i64
+    }
+}
+
+#[derive(Clone)]
+pub struct SumModC(pub i64);
+impl CombineFn<Val, i64, Val> for SumModC {
+    fn create(&self) -> i64 {
+        0
+    }
+    fn add_input(&self, acc: &mut i64, v: Val) {
+        *acc = (*acc + vint(&v)).rem_euclid(self.0);
+    }
+    fn merge(&self, acc: &mut i64, other: i64) {
+        *acc = (*acc + other).rem_euclid(self.0);
+    }
+    fn finish(&self, acc: i64) -> Val {
+        Val::Int(acc)
+    }
+}
+impl LiftableCombiner<Val, i64, Val> for SumModC {
+    fn build_from_group(&self, values: &[Val]) -> i64 {
+        values.iter().fold(0i64, |a, v| (a + vint(v)).rem_euclid(self.0))
+    }
+}
+
+pub fn zgcd(a: i64, b: i64) -> i64 {
+    let (mut a, mut b) = (a.unsigned_abs(), b.unsigned_abs());
+    while b != 0 {
+        (a, b) = (b, a % b);
+    }
+    a as i64
+}
+#[derive(Clone)]
+pub struct GcdC;
+impl CombineFn<Val, i64, Val> for GcdC {
+    fn create(&self) -> i64 {
+        0
+    }
+    fn add_input(&self, acc: &mut i64, v: Val) {
+        *acc = zgcd(*acc, vint(&v));
+    }
+    fn merge(&self, acc: &mut i64, other: i64) {
+        *acc = zgcd(*acc, other);
+    }
+    fn finish(&self, acc: i64) -> Val {
+        Val::Int(acc)
+    }
+}
+impl LiftableCombiner<Val, i64, Val> for GcdC {
+    fn build_from_group(&self, values: &[Val]) -> i64 {
+        values.iter().fold(0i64, |a, v| zgcd(a, vint(v)))
+    }
+}
+
+// ------------------------------------------------------------------ building the real pipeline
+
+pub enum Coll {
+    U(PCollection<Val>),
+    KV(PCollection<(Val, Val)>),
+    KG(PCollection<(Val, Vec<Val>)>),
+    KW(PCollection<(Val, Wrapped)>),
+    L(PCollection<Vec<Val>>),
+}
+
+/// a row of any shape as the model's value
+pub trait Row: Clone + Send + Sync + 'static {
+    fn to_val(&self) -> Val;
+}
+impl Row for Val {
+    fn to_val(&self) -> Val {
+        self.clone()
+    }
+}
+impl Row for (Val, Val) {
+    fn to_val(&self) -> Val {
+        pair(self.0.clone(), self.1.clone())
+    }
+}
+impl Row for (Val, Vec<Val>) {
+    fn to_val(&self) -> Val {
+        pair(self.0.clone(), Val::List(self.1.clone()))
+    }
+}
+impl Row for (Val, Wrapped) {
+    fn to_val(&self) -> Val {
+        pair(self.0.clone(), self.1.0.clone())
+    }
+}
+impl Row for Vec<Val> {
+    fn to_val(&self) -> Val {
+        Val::List(self.clone())
+    }
+}
+
+fn filt<T: Row>(c: PCollection<T>, p: &PFun) -> PCollection<T> {
+    let p = p.clone();
+    c.filter(move |r: &T| pf(&p, &r.to_val()))
+}
+fn rep<T: Row>(c: PCollection<T>, n: usize) -> PCollection<T> {
+    c.flat_map(move |r: &T| vec![r.clone(); n])
+}
+
+/// scalar-output combiners: `$body` is expanded once per combiner with `$c` bound to it
+#[macro_export]
+macro_rules! with_scalar_comb {
+    ($cid:expr, $c:ident => $body:expr) => {
+        match $cid {
+            Cid::Sum => {
+                let $c = Sum::<Val>::new();
+                $body
+            }
+            Cid::Count => {
+                let $c = CountC;
+                $body
+            }
+            Cid::Min => {
+                let $c = Min::<Val>::new();
+                $body
+            }
+            Cid::Max => {
+                let $c = Max::<Val>::new();
+                $body
+            }
+            Cid::SumMod(m) => {
+                let $c = SumModC(*m);
+                $body
+            }
+            Cid::Gcd => {
+                let $c = GcdC;
+                $body
+            }
+            Cid::TopK(_) | Cid::Distinct => unreachable!(),
+        }
+    };
+}
+#[macro_export]
+macro_rules! with_list_comb {
+    ($cid:expr, $c:ident => $body:expr) => {
+        match $cid {
+            Cid::TopK(k) => {
+                let $c = TopK::<Val>::new(*k);
+                $body
+            }
+            Cid::Distinct => {
+                let $c = DistinctSet::<Val>::default();
+                $body
+            }
+            _ => unreachable!(),
+        }
+    };
+}
+
+fn unjoin<V: Row, W: Row>(
+    c: PCollection<(Val, (V, W))>,
+    fv: fn(&V) -> Val,
+    fw: fn(&W) -> Val,
+) -> PCollection<(Val, Val)> {
+    c.map(move |r: &(Val, (V, W))| (r.0.clone(), pair(fv(&r.1.0), fw(&r.1.1))))
+}
+impl Row for Option<Val> {
+    fn to_val(&self) -> Val {
+        match self {
+            None => Val::None,
+            Some(x) => Val::Some(Box::new(x.clone())),
+        }
+    }
+}
+fn plain(v: &Val) -> Val {
+    v.clone()
+}
+fn opt(v: &Option<Val>) -> Val {
+    v.to_val()
+}
+
+pub fn apply_step(p: &Pipeline, c: Coll, s: &Step) -> R<Coll> {
+    use Coll::*;
+    let ill = || Err(format!("ill-typed step {s:?}"));
+    Ok(match (s, c) {
+        (Step::Map(f), U(c)) => {
+            let f = f.clone();
+            U(c.map(move |x: &Val| ef(&f, x)))
+        }
+        (Step::Filter(p), U(c)) => U(filt(c, p)),
+        (Step::Filter(p), KV(c)) => KV(filt(c, p)),
+        (Step::Filter(p), KG(c)) => KG(filt(c, p)),
+        (Step::Filter(p), KW(c)) => KW(filt(c, p)),
+        (Step::Filter(p), L(c)) => L(filt(c, p)),
+        (Step::FlatMap(g @ (GFun::UpTo(_) | GFun::Elems)), U(c)) => {
+            let g = g.clone();
+            U(c.flat_map(move |x: &Val| gf(&g, x)))
+        }
+        (Step::FlatMap(GFun::Elems), KG(c)) => KV(c.flat_map(|r: &(Val, Vec<Val>)| {
+            r.1.iter().map(|x| (r.0.clone(), x.clone())).collect::<Vec<_>>()
+        })),
+        (Step::FlatMap(GFun::Elems), L(c)) => U(c.flat_map(|r: &Vec<Val>| r.clone())),
+        (Step::FlatMap(g @ (GFun::Repeat(_) | GFun::None)), c) => {
+            let n = if let GFun::Repeat(n) = g { *n } else { 0 };
+            match c {
+                U(c) => U(rep(c, n)),
+                KV(c) => KV(rep(c, n)),
+                KW(c) => KW(rep(c, n)),
+                L(c) => L(rep(c, n)),
+                KG(_) => return ill(),
+            }
+        }
+        (Step::KeyBy(f), U(c)) => {
+            let f = f.clone();
+            KV(c.key_by(move |x: &Val| ef(&f, x)))
+        }
+        (Step::Unkey, KV(c)) => U(c.map(|r: &(Val, Val)| pair(r.0.clone(), r.1.clone()))),
+        (Step::MapValues(f), KV(c)) => {
+            let f = f.clone();
+            KV(c.map_values(move |v: &Val| ef(&f, v)))
+        }
+        (Step::FilterValues(p), KV(c)) => {
+            let p = p.clone();
+            KV(c.filter_values(move |v: &Val| pf(&p, v)))
+        }
+        (Step::MapValuesW(f), KV(c)) => {
+            let f = f.clone();
+            KW(c.map_values(move |v: &Val| Wrapped(ef(&f, v))))
+        }
+        (Step::FilterValuesW(p), KW(c)) => {
+            let p = p.clone();
+            KW(c.filter_values(move |w: &Wrapped| pf(&p, &w.0)))
+        }
+        (Step::MapValuesBack(f), KW(c)) => {
+            let f = f.clone();
+            KV(c.map_values(move |w: &Wrapped| ef(&f, &w.0)))
+        }
+        (Step::MapBatches(n, b), U(c)) => {
+            let b = b.clone();
+            U(c.map_batches(*n, move |chunk: &[Val]| bf(&b, chunk)))
+        }
+        (Step::MapValuesBatches(n, b), KV(c)) => {
+            let b = b.clone();
+            KV(c.map_values_batches(*n, move |chunk: &[Val]| bf(&b, chunk)))
+        }
+        (Step::GroupByKey, KV(c)) => KG(c.group_by_key()),
+        (Step::CombineValues(cid), KV(c)) => {
+            if cid.list_out() {
+                with_list_comb!(cid, cb => KG(c.combine_values(cb)))
+            } else {
+                with_scalar_comb!(cid, cb => KV(c.combine_values(cb)))
+            }
+        }
+        (Step::CombineValuesLifted(cid), KG(c)) => {
+            if cid.list_out() {
+                with_list_comb!(cid, cb => KG(c.combine_values_lifted(cb)))
+            } else {
+                with_scalar_comb!(cid, cb => KV(c.combine_values_lifted(cb)))
+            }
+        }
+        (Step::CombineGlobally(cid, lifted, fanout), U(c)) => match (cid.list_out(), *lifted) {
+            (true, false) => with_list_comb!(cid, cb => L(c.combine_globally(cb, *fanout))),
+            (true, true) => with_list_comb!(cid, cb => L(c.combine_globally_lifted(cb, *fanout))),
+            (false, false) => with_scalar_comb!(cid, cb => U(c.combine_globally(cb, *fanout))),
+            (false, true) => with_scalar_comb!(cid, cb => U(c.combine_globally_lifted(cb, *fanout))),
+        },
+        (Step::Distinct, U(c)) => U(c.distinct()),
+        (Step::Distinct, KV(c)) => KV(c.distinct()),
+        (Step::DistinctPerKey, KV(c)) => KV(c.distinct_per_key()),
+        (Step::TopKPerKey(k), KV(c)) => KG(c.top_k_per_key(*k)),
+        (Step::GroupsToList, KG(c)) => {
+            KV(c.map(|r: &(Val, Vec<Val>)| (r.0.clone(), Val::List(r.1.clone()))))
+        }
+        (Step::Join(kind, rsteps, rdata), KV(left)) => {
+            let rrows: Vec<(Val, Val)> = rdata
+                .iter()
+                .map(|v| match v {
+                    Val::Pair(k, x) => Ok(((**k).clone(), (**x).clone())),
+                    _ => Err("right row is not a pair".to_string()),
+                })
+                .collect::<R<_>>()?;
+            let right = match apply_steps(p, KV(from_vec(p, rrows)), rsteps)? {
+                KV(r) => r,
+                _ => return ill(),
+            };
+            KV(match kind {
+                JoinKind::Inner => unjoin(left.join_inner(&right), plain, plain),
+                JoinKind::Left => unjoin(left.join_left(&right), plain, opt),
+                JoinKind::Right => unjoin(left.join_right(&right), opt, plain),
+                JoinKind::Full => unjoin(left.join_full(&right), opt, opt),
+            })
+        }
+        _ => return ill(),
+    })
+}
+pub fn apply_steps(p: &Pipeline, mut c: Coll, steps: &[Step]) -> R<Coll> {
+    for s in steps {
+        c = apply_step(p, c, s)?;
+    }
+    Ok(c)
+}
+
+fn kv_rows(d: &[Val]) -> Vec<(Val, Val)> {
+    d.iter()
+        .map(|v| match v {
+            Val::Pair(k, x) => ((**k).clone(), (**x).clone()),
+            _ => unreachable!(),
+        })
+        .collect()
+}
+
+static FILE_NO: AtomicU64 = AtomicU64::new(0);
+
+/// Write the sharded source as a JSONL file whose `build_jsonl_shards(path, lps)` ranges hold
+/// exactly the given shards (blank lines pad a range) and whose line count is `total`.
+fn write_sharded<T: Serialize>(dir: &str, shards: &[Vec<T>], total: usize) -> R<(String, usize)> {
+    let s = shards.len();
+    if total == 0 {
+        if s != 0 {
+            return Err("empty file has no shards".into());
+        }
+    } else if s == 0 {
+        return Err("non-empty file has at least one shard".into());
+    }
+    let mut lps_found = None;
+    for lps in 1..=total.max(1) {
+        if total > 0 && total.div_ceil(lps) != s {
+            continue;
+        }
+        let fits = (0..s).all(|i| shards[i].len() <= ((i + 1) * lps).min(total) - i * lps);
+        if fits {
+            lps_found = Some(lps);
+            break;
+        }
+    }
+    let lps = lps_found.ok_or("no lines_per_shard fits these shards")?;
+    std::fs::create_dir_all(dir).map_err(|e| e.to_string())?;
+    let path = format!(
+        "{dir}/src_{}_{}.jsonl",
+        std::process::id(),
+        FILE_NO.fetch_add(1, Ordering::SeqCst)
+    );
+    let mut text = String::new();
+    for (i, sh) in shards.iter().enumerate() {
+        let size = ((i + 1) * lps).min(total) - i * lps;
+        for r in sh {
+            text.push_str(&serde_json::to_string(r).map_err(|e| e.to_string())?);
+            text.push('\n');
+        }
+        for _ in sh.len()..size {
+            text.push('\n');
+        }
+    }
+    std::fs::write(&path, text).map_err(|e| e.to_string())?;
+    Ok((path, lps))
+}
+
+pub struct Built {
+    pub coll: Coll,
+    pub file: Option<String>,
+}
+
+pub fn build(p: &Pipeline, src: &Src, steps: &[Step], dir: &str) -> R<Built> {
+    let mut file = None;
+    let c = match src {
+        Src::Vec(Shape::U, d) => Coll::U(from_vec(p, d.clone())),
+        Src::Vec(Shape::KV, d) => Coll::KV(from_vec(p, kv_rows(d))),
+        Src::Vec(Shape::KG, d) => Coll::KG(from_vec(
+            p,
+            d.iter()
+                .map(|v| match v {
+                    Val::Pair(k, x) => match &**x {
+                        Val::List(l) => ((**k).clone(), l.clone()),
+                        _ => unreachable!(),
+                    },
+                    _ => unreachable!(),
+                })
+                .collect::<Vec<(Val, Vec<Val>)>>(),
+        )),
+        Src::Sharded(Shape::U, sh, total) => {
+            let (path, lps) = write_sharded(dir, sh, *total)?;
+            file = Some(path.clone());
+            Coll::U(read_jsonl_streaming::<Val>(p, &path, lps).map_err(|e| e.to_string())?)
+        }
+        Src::Sharded(Shape::KV, sh, total) => {
+            let rows: Vec<Vec<(Val, Val)>> = sh.iter().map(|s| kv_rows(s)).collect();
+            let (path, lps) = write_sharded(dir, &rows, *total)?;
+            file = Some(path.clone());
+            Coll::KV(read_jsonl_streaming::<(Val, Val)>(p, &path, lps).map_err(|e| e.to_string())?)
+        }
+        _ => return Err("unsupported source".into()),
+    };
+    Ok(Built { coll: apply_steps(p, c, steps)?, file })
+}
+
+// ------------------------------------------------------------------ running
+
+#[derive(Clone, Copy, Debug, PartialEq)]
+pub enum Mode {
+    Seq,
+    Par(usize),
+}
+
+pub fn rows_json<T: Row>(r: anyhow::Result<Vec<T>>) -> Value {
+    match r {
+        Ok(rows) => json!(["ok", rows.iter().map(|r| val_json(&r.to_val())).collect::<Vec<_>>()]),
+        Err(e) => {
+            let m = format!("{e:#}");
+            let class = if m.contains("terminal type mismatch") {
+                "terminal_mismatch"
+            } else if m.contains("nested CoGroup") {
+                "nested_cogroup"
+            } else if m.contains("must start with a Source") {
+                "no_source"
+            } else if m.contains("unexpected additional source")
+                || m.contains("unexpected source/materialized")
+            {
+                "extra_source"
+            } else {
+                "other"
+            };
+            json!(["err", class])
+        }
+    }
+}
+
+pub fn threads() -> Option<usize> {
+    crate::opt("threads").and_then(|s| s.parse().ok())
+}
+
+fn collect<T: Row>(c: PCollection<T>, mode: Mode) -> Value {
+    rows_json(match mode {
+        Mode::Seq => c.collect_seq(),
+        Mode::Par(n) => c.collect_par(threads(), Some(n)),
+    })
+}
+
+/// Build the real pipeline for (src, steps) and collect it in `mode`, on a watchdog thread:
+/// ["ok", rows] | ["err", class] | ["panic"] | ["hang"] | ["invalid"] (ill-typed program).
+pub fn run_program(src: &Src, steps: &[Step], mode: Mode, dir: &str) -> Value {
+    if src.shape() == Shape::KG && matches!(src, Src::Sharded(..)) {
+        return json!(["invalid"]);
+    }
+    if steps_shape(steps, src.shape()).is_err() {
+        return json!(["invalid"]);
+    }
+    let (tx, rx) = mpsc::channel::<(Value, Option<String>)>();
+    let (src, steps, dir) = (src.clone(), steps.to_vec(), dir.to_string());
+    std::thread::spawn(move || {
+        let mut file = None;
+        let out = catch_unwind(AssertUnwindSafe(|| {
+            let p = Pipeline::default();
+            let built = match build(&p, &src, &steps, &dir) {
+                Ok(b) => b,
+                Err(_) => return json!(["invalid"]),
+            };
+            file = built.file.clone();
+            match built.coll {
+                Coll::U(c) => collect(c, mode),
+                Coll::KV(c) => collect(c, mode),
+                Coll::KG(c) => collect(c, mode),
+                Coll::KW(c) => collect(c, mode),
+                Coll::L(c) => collect(c, mode),
+            }
+        }))
+        .unwrap_or_else(|_| json!(["panic"]));
+        let _ = tx.send((out, file));
+    });
+    match rx.recv_timeout(Duration::from_secs(5)) {
+        Ok((v, file)) => {
+            if let Some(f) = file {
+                let _ = std::fs::remove_file(f);
+            }
+            v
+        }
+        Err(_) => json!(["hang"]),
+    }
+}
+
+pub fn parse_mode(j: &Value) -> R<Mode> {
+    if j.is_null() { Ok(Mode::Seq) } else { Ok(Mode::Par(nat(j)?)) }
+}
+
+/// kind "prog": in = [src, steps, partitions_or_null] -> observed outcome
+pub fn run_prog_case(input: &Value, dir: &str) -> Value {
+    let parsed = (|| -> R<(Src, Vec<Step>, Mode)> {
+        let a = input.as_array().ok_or("input")?;
+        if a.len() != 3 {
+            return Err("input arity".into());
+        }
+        Ok((parse_src(&a[0])?, parse_steps(&a[1])?, parse_mode(&a[2])?))
+    })();
+    match parsed {
+        Ok((src, steps, mode)) => run_program(&src, &steps, mode, dir),
+        Err(_) => json!(["invalid"]),
+    }
+}
+/// kind "pair": in = [src, steps, partitions] -> [seq outcome, par outcome]
+pub fn run_pair_case(input: &Value, dir: &str) -> Value {
+    let parsed = (|| -> R<(Src, Vec<Step>, usize)> {
+        let a = input.as_array().ok_or("input")?;
+        if a.len() != 3 {
+            return Err("input arity".into());
+        }
+        Ok((parse_src(&a[0])?, parse_steps(&a[1])?, nat(&a[2])?))
+    })();
+    match parsed {
+        Ok((src, steps, n)) => {
+            let s = run_program(&src, &steps, Mode::Seq, dir);
+            if s == json!(["invalid"]) {
+                return s;
+            }
+            let p = run_program(&src, &steps, Mode::Par(n), dir);
+            json!([s, p])
+        }
+        Err(_) => json!(["invalid"]),
+    }
+}
+
+// ------------------------------------------------------------------ reference interpreter
+// A Rust mirror of Engine/Denote.v.  It is used ONLY to steer the generators (actual row counts,
+// magnitudes, value shapes, emptiness) and to compute the `nontrivial` flag; nothing is judged
+// with it (all judging happens inside Coq).
+
+pub fn vfst(v: &Val) -> Val {
+    match v {
+        Val::Pair(a, _) => (**a).clone(),
+        _ => v.clone(),
+    }
+}
+pub fn vsnd(v: &Val) -> Val {
+    match v {
+        Val::Pair(_, b) => (**b).clone(),
+        _ => v.clone(),
+    }
+}
+fn on_snd(v: &Val, f: impl Fn(&Val) -> Val) -> Val {
+    match v {
+        Val::Pair(k, x) => pair((**k).clone(), f(x)),
+        _ => v.clone(),
+    }
+}
+pub fn keys_of(rows: &[Val]) -> Vec<Val> {
+    let mut out: Vec<Val> = vec![];
+    for r in rows {
+        let k = vfst(r);
+        if !out.contains(&k) {
+            out.push(k);
+        }
+    }
+    out
+}
+pub fn values_of(k: &Val, rows: &[Val]) -> Vec<Val> {
+    rows.iter().filter(|r| vfst(r) == *k).map(vsnd).collect()
+}
+fn dedup(vs: &[Val]) -> Vec<Val> {
+    let mut out: Vec<Val> = vec![];
+    for v in vs {
+        if !out.contains(v) {
+            out.push(v.clone());
+        }
+    }
+    out
+}
+pub fn fold_c(c: &Cid, vs: &[Val]) -> Val {
+    match c {
+        Cid::Sum => Val::Int(vs.iter().map(vint).sum()),
+        Cid::Count => Val::Int(vs.len() as i64),
+        Cid::Min => vs.iter().min().cloned().unwrap_or(Val::None),
+        Cid::Max => vs.iter().max().cloned().unwrap_or(Val::None),
+        Cid::TopK(k) => {
+            let mut s = vs.to_vec();
+            s.sort();
+            s.reverse();
+            s.truncate(*k);
+            Val::List(s)
+        }
+        Cid::Distinct => Val::List(dedup(vs)),
+        Cid::SumMod(m) => Val::Int(vs.iter().fold(0, |a, v| (a + vint(v)).rem_euclid(*m))),
+        Cid::Gcd => Val::Int(vs.iter().fold(0, |a, v| zgcd(a, vint(v)))),
+    }
+}
+fn vlist(v: &Val) -> Vec<Val> {
+    if let Val::List(l) = v { l.clone() } else { vec![] }
+}
+fn some(v: Val) -> Val {
+    Val::Some(Box::new(v))
+}
+pub fn d_join(kind: JoinKind, l: &[Val], r: &[Val]) -> Vec<Val> {
+    let mut out = vec![];
+    let lo = matches!(kind, JoinKind::Right | JoinKind::Full);
+    let ro = matches!(kind, JoinKind::Left | JoinKind::Full);
+    let wl = |v: Val| if lo { some(v) } else { v };
+    let wr = |v: Val| if ro { some(v) } else { v };
+    for lr in l {
+        for rr in r.iter().filter(|rr| vfst(rr) == vfst(lr)) {
+            out.push(pair(vfst(lr), pair(wl(vsnd(lr)), wr(vsnd(rr)))));
+        }
+    }
+    if ro {
+        for lr in l.iter().filter(|lr| !r.iter().any(|rr| vfst(rr) == vfst(lr))) {
+            out.push(pair(vfst(lr), pair(wl(vsnd(lr)), Val::None)));
+        }
+    }
+    if lo {
+        for rr in r.iter().filter(|rr| !l.iter().any(|lr| vfst(lr) == vfst(rr))) {
+            out.push(pair(vfst(rr), pair(Val::None, wr(vsnd(rr)))));
+        }
+    }
+    out
+}
+pub fn d_step(s: &Step, rows: &[Val]) -> Vec<Val> {
+    match s {
+        Step::Map(f) => rows.iter().map(|x| ef(f, x)).collect(),
+        Step::Filter(p) => rows.iter().filter(|x| pf(p, x)).cloned().collect(),
+        Step::FlatMap(g) => rows.iter().flat_map(|x| gf(g, x)).collect(),
+        Step::KeyBy(f) => rows.iter().map(|x| pair(ef(f, x), x.clone())).collect(),
+        Step::Unkey | Step::GroupsToList => rows.to_vec(),
+        Step::MapValues(f) | Step::MapValuesW(f) | Step::MapValuesBack(f) => {
+            rows.iter().map(|r| on_snd(r, |v| ef(f, v))).collect()
+        }
+        Step::FilterValues(p) | Step::FilterValuesW(p) => {
+            rows.iter().filter(|r| pf(p, &vsnd(r))).cloned().collect()
+        }
+        Step::MapBatches(n, b) => rows.chunks((*n).max(1)).flat_map(|c| bf(b, c)).collect(),
+        Step::MapValuesBatches(n, b) => rows
+            .chunks((*n).max(1))
+            .flat_map(|c| {
+                let outs = bf(b, &c.iter().map(vsnd).collect::<Vec<_>>());
+                c.iter().zip(outs).map(|(r, o)| pair(vfst(r), o)).collect::<Vec<_>>()
+            })
+            .collect(),
+        Step::GroupByKey => keys_of(rows)
+            .into_iter()
+            .map(|k| {
+                let vs = values_of(&k, rows);
+                pair(k, Val::List(vs))
+            })
+            .collect(),
+        Step::CombineValues(c) => keys_of(rows)
+            .into_iter()
+            .map(|k| {
+                let vs = values_of(&k, rows);
+                pair(k, fold_c(c, &vs))
+            })
+            .collect(),
+        Step::TopKPerKey(k) => d_step(&Step::CombineValues(Cid::TopK(*k)), rows),
+        Step::CombineValuesLifted(c) => keys_of(rows)
+            .into_iter()
+            .map(|k| {
+                let vs: Vec<Val> = values_of(&k, rows).iter().flat_map(vlist).collect();
+                pair(k, fold_c(c, &vs))
+            })
+            .collect(),
+        Step::CombineGlobally(c, _, _) => vec![fold_c(c, rows)],
+        Step::Distinct => dedup(rows),
+        Step::DistinctPerKey => keys_of(rows)
+            .into_iter()
+            .flat_map(|k| {
+                dedup(&values_of(&k, rows)).into_iter().map(|v| pair(k.clone(), v)).collect::<Vec<_>>()
+            })
+            .collect(),
+        Step::Join(kind, rs, rd) => d_join(*kind, rows, &d_steps(rs, rd)),
+    }
+}
+pub fn d_steps(steps: &[Step], rows: &[Val]) -> Vec<Val> {
+    let mut r = rows.to_vec();
+    for s in steps {
+        r = d_step(s, &r);
+    }
+    r
+}
+
+pub fn magnitude(v: &Val) -> i64 {
+    match v {
+        Val::Int(z) => z.abs(),
+        Val::Pair(a, b) => magnitude(a).max(magnitude(b)),
+        Val::List(l) => l.iter().map(magnitude).max().unwrap_or(0),
+        Val::None => 0,
+        Val::Some(x) => magnitude(x),
+    }
+}
+pub fn has_list(v: &Val) -> bool {
+    match v {
+        Val::Int(_) | Val::None => false,
+        Val::Pair(a, b) => has_list(a) || has_list(b),
+        Val::List(_) => true,
+        Val::Some(x) => has_list(x),
+    }
+}
+
+// ------------------------------------------------------------------ partitions (for `nontrivial`)
+
+/// mirror of VecOpsImpl::split after exec_par's clamp; sharded sources: the shards
+pub fn source_parts(src: &Src, partitions: usize) -> Vec<Vec<Val>> {
+    match src {
+        Src::Sharded(_, sh, _) => sh.clone(),
+        Src::Vec(_, d) => {
+            let n = partitions.max(1).min(d.len().max(1));
+            if n <= 1 || d.len() <= 1 {
+                vec![d.clone()]
+            } else {
+                d.chunks(d.len().div_ceil(n)).map(<[Val]>::to_vec).collect()
+            }
+        }
+    }
+}
+
+/// Honest per-case flag.  Sequential run: >= 2 source rows and >= 1 step.  Parallel run: >= 2
+/// partitions actually produced and >= 2 rows; with `need_span` additionally, at the first
+/// barrier (element-wise prefix evaluated per partition): some key present in >= 2 partitions
+/// (keyed barrier) or >= 2 non-empty partitions (global barrier).
+pub fn nontrivial(src: &Src, steps: &[Step], mode: Mode, need_span: bool) -> bool {
+    let Mode::Par(n) = mode else {
+        return src.len() >= 2 && !steps.is_empty();
+    };
+    let parts = source_parts(src, n);
+    if parts.len() < 2 || src.len() < 2 {
+        return false;
+    }
+    if !need_span {
+        return true;
+    }
+    let cut = steps.iter().position(|s| !elementwise_step(s)).unwrap_or(steps.len());
+    if cut == steps.len() {
+        return false;
+    }
+    let at: Vec<Vec<Val>> = parts.iter().map(|p| d_steps(&steps[..cut], p)).collect();
+    let keyed = !matches!(steps[cut], Step::CombineGlobally(..) | Step::Distinct);
+    if !keyed {
+        return at.iter().filter(|p| !p.is_empty()).count() >= 2;
+    }
+    let mut seen: Vec<(Val, usize)> = vec![];
+    for (i, p) in at.iter().enumerate() {
+        for k in keys_of(p) {
+            match seen.iter().find(|(k2, _)| *k2 == k) {
+                Some((_, j)) if *j != i => return true,
+                Some(_) => {}
+                None => seen.push((k, i)),
+            }
+        }
+    }
+    false
+}
+
+// ------------------------------------------------------------------ generators
+
+#[derive(Clone, Debug)]
+pub struct GenOpts {
+    pub barriers: bool,
+    pub joins: bool,
+    /// rev / droplast batch functions (partition dependent; only while row order is deterministic)
+    pub odd_batches: bool,
+    pub retype: bool,
+    /// allow programs in the known-finding class "C02-reorder"
+    pub reorder_class: bool,
+    /// allow a global Min / Max of an empty input (panics in every mode)
+    pub empty_minmax: bool,
+}
+impl GenOpts {
+    pub fn elementwise() -> Self {
+        GenOpts { barriers: false, joins: false, odd_batches: false, retype: true,
+                  reorder_class: false, empty_minmax: false }
+    }
+    pub fn all() -> Self {
+        GenOpts { barriers: true, joins: true, odd_batches: false, retype: true,
+                  reorder_class: false, empty_minmax: false }
+    }
+}
+
+const ROW_CAP: usize = 160;
+const MAG_CAP: i64 = 1 << 31;
+
+/// state of the simulation while a program is generated
+#[derive(Clone)]
+pub struct Sim {
+    pub shape: Shape,
+    pub rows: Vec<Val>,
+    /// row order is still deterministic (no HashMap iteration upstream)
+    pub ordered: bool,
+    /// some list inside the rows was built from an arbitrary order
+    pub inner_unordered: bool,
+    pub joined: bool,
+}
+impl Sim {
+    pub fn new(shape: Shape, rows: Vec<Val>) -> Self {
+        Sim { shape, rows, ordered: true, inner_unordered: false, joined: false }
+    }
+    fn sample(&self) -> Option<&Val> {
+        self.rows.first()
+    }
+    /// values (of keyed rows) or rows may be compared / hashed meaningfully
+    pub fn comparable(&self) -> bool {
+        !(self.inner_unordered && self.rows.iter().any(has_list))
+    }
+    pub fn step(&self, s: &Step) -> Option<Sim> {
+        let shape = step_shape(s, self.shape).ok()?;
+        let rows = d_step(s, &self.rows);
+        if rows.len() > ROW_CAP || rows.iter().any(|r| magnitude(r) >= MAG_CAP) {
+            return None;
+        }
+        let hash = hash_step(s);
+        let lists_from_order = matches!(s, Step::GroupByKey) && !self.ordered;
+        let set_lists = |s: &Step| {
+            matches!(
+                s,
+                Step::CombineValues(Cid::Distinct) | Step::CombineValuesLifted(Cid::Distinct)
+                    | Step::CombineGlobally(Cid::Distinct, _, _)
+            )
+        };
+        // lists of arbitrary order built inside the right side of a join
+        let right_unordered = match s {
+            Step::Join(_, rs, _) => {
+                let mut ord = true;
+                let mut bad = false;
+                for r in rs {
+                    if (matches!(r, Step::GroupByKey) && !ord) || set_lists(r) {
+                        bad = true;
+                    }
+                    if hash_step(r) {
+                        ord = false;
+                    }
+                }
+                bad
+            }
+            _ => false,
+        };
+        let set_lists = set_lists(s);
+        Some(Sim {
+            shape,
+            rows,
+            ordered: self.ordered && !hash,
+            inner_unordered: self.inner_unordered || lists_from_order || set_lists || right_unordered,
+            joined: self.joined || is_join(s),
+        })
+    }
+}
+
+fn small_mod(rng: &mut SplitMix64) -> i64 {
+    rng.range(1, 5)
+}
+
+pub fn gen_efun(rng: &mut SplitMix64, sample: Option<&Val>, depth: u32) -> EFun {
+    let comp = |f: EFun, g: EFun| EFun::Comp(Box::new(f), Box::new(g));
+    let f = match sample {
+        Some(Val::Int(_)) | None => match rng.below(8) {
+            0 => EFun::Id,
+            1 | 2 => EFun::Add(rng.range(-9, 9)),
+            3 => comp(EFun::Mul(rng.range(-5, 7)), EFun::Mod(rng.range(2, 97))),
+            4 => EFun::Mod(rng.range(1, 11)),
+            5 => EFun::Dup,
+            6 => EFun::Wrap,
+            _ => EFun::KeyMod(small_mod(rng)),
+        },
+        Some(Val::Pair(a, b)) => match rng.below(8) {
+            0 => EFun::Fst,
+            1 => EFun::Snd,
+            2 => EFun::Swap,
+            3 => EFun::Dup,
+            4 if depth < 2 => comp(EFun::Fst, gen_efun(rng, Some(a), depth + 1)),
+            5 | 6 if depth < 2 => comp(EFun::Snd, gen_efun(rng, Some(b), depth + 1)),
+            7 => EFun::KeyMod(small_mod(rng)),
+            _ => EFun::Id,
+        },
+        Some(Val::List(_)) => match rng.below(6) {
+            0 | 1 => comp(EFun::Sum, EFun::Mod(rng.range(2, 1000))),
+            2 | 3 => EFun::Len,
+            4 => EFun::Wrap,
+            _ => EFun::KeyMod(small_mod(rng)),
+        },
+        Some(Val::None | Val::Some(_)) => match rng.below(4) {
+            0 => EFun::Id,
+            1 => EFun::Dup,
+            2 => EFun::Wrap,
+            _ => EFun::KeyMod(small_mod(rng)),
+        },
+    };
+    if depth == 0 && rng.chance(1, 5) {
+        let mid = sample.map(|s| ef(&f, s));
+        let g = gen_efun(rng, mid.as_ref(), 1);
+        comp(f, g)
+    } else {
+        f
+    }
+}
+/// a key function whose keys are small integers on every current row
+pub fn gen_keyfun(rng: &mut SplitMix64, rows: &[Val]) -> EFun {
+    let m = rng.range(1, 5);
+    let cand = match rows.first() {
+        Some(Val::Int(_)) if rng.chance(2, 3) => EFun::Mod(m),
+        Some(Val::List(_)) if rng.chance(1, 2) => EFun::Len,
+        _ => EFun::Comp(Box::new(EFun::KeyMod(m)), Box::new(EFun::Fst)),
+    };
+    if rows.iter().all(|r| matches!(ef(&cand, r), Val::Int(_))) {
+        cand
+    } else {
+        EFun::Comp(Box::new(EFun::KeyMod(m)), Box::new(EFun::Fst))
+    }
+}
+pub fn gen_pfun(rng: &mut SplitMix64, sample: Option<&Val>, depth: u32) -> PFun {
+    match rng.below(10) {
+        0 => PFun::True,
+        1 if depth == 0 => PFun::False,
+        2 | 3 | 4 => {
+            let m = rng.range(2, 4);
+            PFun::ModEq(m, rng.range(0, m - 1))
+        }
+        5 | 6 | 7 => PFun::Lt(sample.map_or(0, ikey) + rng.range(-3, 3)),
+        _ if depth < 2 => PFun::Not(Box::new(gen_pfun(rng, sample, depth + 1))),
+        _ => PFun::Lt(rng.range(-5, 5)),
+    }
+}
+pub fn gen_cid(rng: &mut SplitMix64, comparable: bool) -> Cid {
+    loop {
+        let c = match rng.below(9) {
+            0 | 1 => Cid::Sum,
+            2 => Cid::Count,
+            3 => Cid::Min,
+            4 => Cid::Max,
+            5 => Cid::TopK(rng.below(4) as usize),
+            6 => Cid::Distinct,
+            7 => Cid::SumMod(rng.range(1, 7)),
+            _ => Cid::Gcd,
+        };
+        if comparable || !matches!(c, Cid::Min | Cid::Max | Cid::TopK(_) | Cid::Distinct) {
+            return c;
+        }
+    }
+}
+fn gen_bfun(rng: &mut SplitMix64, sample: Option<&Val>, odd: bool) -> BFun {
+    if odd && rng.chance(1, 2) {
+        if rng.chance(3, 4) { BFun::Rev } else { BFun::DropLast }
+    } else {
+        BFun::Each(gen_efun(rng, sample, 0))
+    }
+}
+pub fn gen_fanout(rng: &mut SplitMix64, parts: usize) -> Option<usize> {
+    match rng.below(6) {
+        0 => None,
+        1 => Some(0),
+        2 => Some(1),
+        3 => Some(2),
+        _ => Some(rng.below(parts as u64 + 2) as usize),
+    }
+}
+
+pub fn gen_kv_rows(rng: &mut SplitMix64, n: usize, nkeys: i64) -> Vec<Val> {
+    (0..n).map(|_| pair(Val::Int(rng.range(0, nkeys.max(1) - 1)), Val::Int(rng.range(-20, 20)))).collect()
+}
+
+/// one random well-typed step for the current state (None: nothing suitable found)
+pub fn gen_step(rng: &mut SplitMix64, sim: &Sim, o: &GenOpts, parts: usize) -> Option<(Step, Sim)> {
+    for _ in 0..12 {
+        let sample = sim.sample();
+        let vsample = sample.map(vsnd);
+        let s = match sim.shape {
+            Shape::U => match rng.below(if o.barriers { 13 } else { 9 }) {
+                0 | 1 => Step::Map(gen_efun(rng, sample, 0)),
+                2 => Step::Filter(gen_pfun(rng, sample, 0)),
+                3 => Step::FlatMap(match rng.below(5) {
+                    0 => GFun::Repeat(rng.below(4) as usize),
+                    1 | 2 => GFun::UpTo(rng.range(1, 4)),
+                    3 => GFun::Elems,
+                    _ => GFun::None,
+                }),
+                4 | 5 | 6 => Step::KeyBy(gen_keyfun(rng, &sim.rows)),
+                7 | 8 => Step::MapBatches(rng.below(5) as usize,
+                                          gen_bfun(rng, sample, o.odd_batches && sim.ordered)),
+                9 | 10 => {
+                    let c = gen_cid(rng, sim.comparable());
+                    Step::CombineGlobally(c, rng.chance(1, 2), gen_fanout(rng, parts))
+                }
+                _ => {
+                    if !sim.comparable() {
+                        continue;
+                    }
+                    Step::Distinct
+                }
+            },
+            Shape::KV => match rng.below(if o.barriers { if o.joins { 20 } else { 18 } } else { 9 }) {
+                0 | 1 => Step::MapValues(gen_efun(rng, vsample.as_ref(), 0)),
+                2 => Step::FilterValues(gen_pfun(rng, vsample.as_ref(), 0)),
+                3 => Step::Filter(gen_pfun(rng, sample, 0)),
+                4 => Step::Unkey,
+                5 => Step::MapValuesBatches(rng.below(5) as usize,
+                                            gen_bfun(rng, vsample.as_ref(), o.odd_batches && sim.ordered)),
+                6 => Step::FlatMap(if rng.chance(3, 4) { GFun::Repeat(rng.below(3) as usize) } else { GFun::None }),
+                7 | 8 => {
+                    if !o.retype {
+                        continue;
+                    }
+                    Step::MapValuesW(gen_efun(rng, vsample.as_ref(), 0))
+                }
+                9 | 10 | 11 => Step::GroupByKey,
+                12 | 13 | 14 => Step::CombineValues(gen_cid(rng, sim.comparable())),
+                15 => {
+                    if !sim.comparable() {
+                        continue;
+                    }
+                    match rng.below(3) {
+                        0 => Step::Distinct,
+                        1 => Step::DistinctPerKey,
+                        _ => Step::TopKPerKey(rng.below(4) as usize),
+                    }
+                }
+                16 | 17 => Step::MapValues(gen_efun(rng, vsample.as_ref(), 0)),
+                _ => {
+                    if sim.joined && !rng.chance(1, 12) {
+                        continue; // a second join is the (rare) nested-join error case
+                    }
+                    gen_join(rng, sim, o, parts)
+                }
+            },
+            Shape::KG => match rng.below(if o.barriers { 6 } else { 4 }) {
+                0 | 1 => Step::GroupsToList,
+                2 => Step::FlatMap(GFun::Elems),
+                3 => Step::Filter(gen_pfun(rng, sample, 0)),
+                _ => Step::CombineValuesLifted(gen_cid(rng, sim.comparable())),
+            },
+            Shape::KW => match rng.below(5) {
+                0 | 1 => Step::FilterValuesW(gen_pfun(rng, vsample.as_ref(), 0)),
+                2 => Step::Filter(gen_pfun(rng, sample, 0)),
+                _ => Step::MapValuesBack(gen_efun(rng, vsample.as_ref(), 0)),
+            },
+            Shape::L => match rng.below(4) {
+                0 | 1 => Step::FlatMap(GFun::Elems),
+                2 => Step::Filter(gen_pfun(rng, sample, 0)),
+                _ => Step::FlatMap(GFun::Repeat(rng.below(3) as usize)),
+            },
+        };
+        if !o.empty_minmax && sim.rows.is_empty()
+            && matches!(s, Step::CombineGlobally(Cid::Min | Cid::Max, _, _))
+        {
+            continue;
+        }
+        // lifted Min / Max over a key whose groups are all empty panics as well
+        if let Step::CombineValuesLifted(Cid::Min | Cid::Max) = s {
+            let bad = keys_of(&sim.rows)
+                .iter()
+                .any(|k| values_of(k, &sim.rows).iter().all(|g| vlist(g).is_empty()));
+            if bad && !o.empty_minmax {
+                continue;
+            }
+        }
+        if let Some(next) = sim.step(&s) {
+            return Some((s, next));
+        }
+    }
+    None
+}
+
+/// bring a side to shape KV (join sides must be keyed)
+pub fn coerce_kv(rng: &mut SplitMix64, sim: &Sim, steps: &mut Vec<Step>) -> Option<Sim> {
+    let mut sim = sim.clone();
+    for _ in 0..3 {
+        let s = match sim.shape {
+            Shape::KV => return Some(sim),
+            Shape::U => Step::KeyBy(gen_keyfun(rng, &sim.rows)),
+            Shape::KG => {
+                if rng.chance(1, 2) { Step::GroupsToList } else { Step::FlatMap(GFun::Elems) }
+            }
+            Shape::KW => Step::MapValuesBack(EFun::Id),
+            Shape::L => Step::FlatMap(GFun::Elems),
+        };
+        sim = sim.step(&s)?;
+        steps.push(s);
+    }
+    if sim.shape == Shape::KV { Some(sim) } else { None }
+}
+
+pub fn gen_join(rng: &mut SplitMix64, sim: &Sim, o: &GenOpts, parts: usize) -> Step {
+    let kind = *rng.pick(&[JoinKind::Inner, JoinKind::Left, JoinKind::Right, JoinKind::Full]);
+    // right keys overlap the left key range partly
+    let lkeys: Vec<i64> = keys_of(&sim.rows).iter().map(ikey).collect();
+    let base = lkeys.first().copied().unwrap_or(0);
+    let n = rng.below(7) as usize;
+    let rdata: Vec<Val> = (0..n)
+        .map(|_| pair(Val::Int(base + rng.range(-1, 3)), Val::Int(rng.range(-9, 9))))
+        .collect();
+    let mut rsteps = vec![];
+    let mut rs = Sim::new(Shape::KV, rdata.clone());
+    let inner = GenOpts { joins: rng.chance(1, 25), odd_batches: false, reorder_class: true, ..o.clone() };
+    for _ in 0..rng.below(4) {
+        match gen_step(rng, &rs, &inner, parts) {
+            Some((s, next)) => {
+                rsteps.push(s);
+                rs = next;
+            }
+            None => break,
+        }
+    }
+    if coerce_kv(rng, &rs, &mut rsteps).is_none() {
+        rsteps.clear();
+    }
+    Step::Join(kind, rsteps, rdata)
+}
+
+/// a random well-typed program of about `nsteps` steps
+pub fn gen_program(rng: &mut SplitMix64, src: &Src, o: &GenOpts, nsteps: usize, parts: usize)
+    -> (Vec<Step>, Sim) {
+    let mut sim = Sim::new(src.shape(), src.data());
+    let mut steps: Vec<Step> = vec![];
+    for _ in 0..nsteps {
+        let Some((s, next)) = gen_step(rng, &sim, o, parts) else { break };
+        steps.push(s);
+        if !o.reorder_class && reorder_changes(&steps) {
+            steps.pop();
+            continue;
+        }
+        sim = next;
+    }
+    (steps, sim)
+}
+
+/// key patterns for keyed sweeps
+pub const PATTERNS: [&str; 6] = ["one", "distinct", "heavy", "roundrobin", "pairs", "runs"];
+pub fn pattern_key(pat: &str, i: usize, rng: &mut SplitMix64) -> i64 {
+    match pat {
+        "one" => 7,
+        "distinct" => i as i64,
+        "heavy" => if rng.chance(4, 5) { 0 } else { rng.range(1, 3) },
+        "roundrobin" => (i % 3) as i64,
+        "pairs" => ((i + 1) / 2) as i64,
+        _ => (i / 3) as i64,
+    }
+}
+pub fn pattern_kv(pat: &str, n: usize, rng: &mut SplitMix64) -> Vec<Val> {
+    (0..n).map(|i| pair(Val::Int(pattern_key(pat, i, rng)), Val::Int(rng.range(-9, 30)))).collect()
+}
+pub fn ints(n: usize, rng: &mut SplitMix64) -> Vec<Val> {
+    (0..n).map(|_| Val::Int(rng.range(-20, 40))).collect()
+}
+
+/// a random source: vec of U / KV / KG rows, or a sharded (streamed JSONL) U / KV source
+pub fn gen_src(rng: &mut SplitMix64, n: usize, allow_kg: bool, allow_sharded: bool) -> Src {
+    let shape = match rng.below(if allow_kg { 7 } else { 6 }) {
+        0 | 1 | 2 => Shape::U,
+        3 | 4 | 5 => Shape::KV,
+        _ => Shape::KG,
+    };
+    let pat = *rng.pick(&PATTERNS);
+    let rows: Vec<Val> = match shape {
+        Shape::U => {
+            if rng.chance(1, 6) {
+                // structured unkeyed rows
+                (0..n).map(|_| pair(Val::Int(rng.range(0, 4)), Val::List(ints(rng.below(3) as usize, rng)))).collect()
+            } else {
+                ints(n, rng)
+            }
+        }
+        Shape::KV => pattern_kv(pat, n, rng),
+        _ => (0..n)
+            .map(|i| {
+                // hand-built grouped input: keys may repeat, groups may be empty
+                let k = if rng.chance(1, 2) { pattern_key(pat, i, rng) } else { rng.range(0, 2) };
+                pair(Val::Int(k), Val::List(ints(rng.below(4) as usize, rng)))
+            })
+            .collect(),
+    };
+    if allow_sharded && shape != Shape::KG && rng.chance(1, 6) {
+        // lines = rows with some blank lines in between, cut into ranges of lps lines
+        let mut lines: Vec<Option<Val>> = vec![];
+        for r in rows {
+            while rng.chance(1, 8) {
+                lines.push(None);
+            }
+            lines.push(Some(r));
+        }
+        while rng.chance(1, 6) {
+            lines.push(None);
+        }
+        let total = lines.len();
+        let lps = rng.range(1, total.max(1) as i64 + 1) as usize;
+        let shards: Vec<Vec<Val>> =
+            lines.chunks(lps).map(|c| c.iter().flatten().cloned().collect()).collect();
+        return Src::Sharded(shape, shards, total);
+    }
+    Src::Vec(shape, rows)
+}
+
+pub fn case_input(src: &Src, steps: &[Step], mode: Mode) -> Value {
+    json!([src_json(src), steps_json(steps), match mode { Mode::Seq => Value::Null, Mode::Par(n) => json!(n) }])
+}
+
+/// tags describing a case for the evidence distribution
+pub fn case_tags(src: &Src, steps: &[Step], mode: Mode, extra: &[&str]) -> Vec<String> {
+    let mut t: Vec<String> = extra.iter().map(|s| s.to_string()).collect();
+    t.push(match mode { Mode::Seq => "seq".into(), Mode::Par(_) => "par".into() });
+    t.push(format!("len{}", match src.len() { 0 => "0", 1 => "1", 2..=8 => "2-8", _ => "9+" }));
+    t.push(format!("steps{}", match steps.len() { 0 => "0", 1..=3 => "1-3", 4..=8 => "4-8", _ => "9+" }));
+    if matches!(src, Src::Sharded(..)) {
+        t.push("sharded".into());
+    }
+    if steps.iter().any(is_join) {
+        t.push("join".into());
+    }
+    if has_barrier(steps) {
+        t.push("barrier".into());
+    }
+    if partition_dependent(steps) {
+        t.push("partition_dependent".into());
+    }
+    if reorder_changes(steps) {
+        t.push("reorder_class".into());
+    }
+    if let Mode::Par(n) = mode {
+        if n == 0 { t.push("parts0".into()); }
+        if n > src.len() { t.push("parts>len".into()); }
+    }
+    t
+}
+
+/// the thread count option perturbs the random part of the generators, so that the runs with
+/// different thread counts explore different programs
+pub fn seed_mix(seed: u64, salt: u64) -> SplitMix64 {
+    let t = threads().unwrap_or(0) as u64;
+    SplitMix64::new(seed ^ salt ^ t.wrapping_mul(0xA24B_AED4_963E_E407))
+}
+
+pub fn emit_prog(em: &mut crate::Emitter, src: &Src, steps: &[Step], mode: Mode, need_span: bool,
+                 extra: &[&str]) {
+    let tags = case_tags(src, steps, mode, extra);
+    let tr: Vec<&str> = tags.iter().map(String::as_str).collect();
+    em.case("prog", case_input(src, steps, mode), nontrivial(src, steps, mode, need_span), &tr);
+}
+/// kind "pair" (C01): the same program collected sequentially and in parallel
+pub fn emit_pair(em: &mut crate::Emitter, src: &Src, steps: &[Step], parts: usize, extra: &[&str]) {
+    let mode = Mode::Par(parts);
+    let tags = case_tags(src, steps, mode, extra);
+    let tr: Vec<&str> = tags.iter().map(String::as_str).collect();
+    let span = has_barrier(steps);
+    em.case("pair", case_input(src, steps, mode), nontrivial(src, steps, mode, span), &tr);
+}
+/// random input length, skewed towards the small / boundary sizes
+pub fn gen_len(rng: &mut SplitMix64) -> usize {
+    if rng.chance(1, 3) { rng.below(4) as usize } else { rng.below(25) as usize }
+}
+/// random partition count in 0..len+2
+pub fn gen_parts(rng: &mut SplitMix64, len: usize) -> usize {
+    rng.below(len as u64 + 3) as usize
+}
+/// sweep source of a given shape and length (keyed: the pattern rotates with the length)
+pub fn sweep_src(shape: Shape, n: usize, pat: usize, rng: &mut SplitMix64) -> Src {
+    match shape {
+        Shape::U => Src::Vec(Shape::U, ints(n, rng)),
+        Shape::KV => Src::Vec(Shape::KV, pattern_kv(PATTERNS[pat % PATTERNS.len()], n, rng)),
+        _ => Src::Vec(
+            Shape::KG,
+            (0..n).map(|i| pair(Val::Int((i % 3) as i64), Val::List(ints(i % 4, rng)))).collect(),
+        ),
+    }
+}
+/// `f(n, mode_index)` over length 0..=24 x (0 = sequential, i+1 = partitions i in 0..=len+2)
+pub fn sweep_grid(mut f: impl FnMut(usize, Option<usize>, usize)) {
+    let mut idx = 0usize;
+    for n in 0..=24usize {
+        for pi in 0..=(n + 3) {
+            f(n, if pi == 0 { None } else { Some(pi - 1) }, idx);
+            idx += 1;
+        }
+    }
+}
+
+/// append steps that bring the collection to `target` (U, KV or KG)
+pub fn coerce(rng: &mut SplitMix64, sim: &Sim, target: Shape, steps: &mut Vec<Step>) -> Option<Sim> {
+    let mut sim = sim.clone();
+    for _ in 0..4 {
+        if sim.shape == target {
+            return Some(sim);
+        }
+        let s = match (sim.shape, target) {
+            (Shape::U, _) => Step::KeyBy(gen_keyfun(rng, &sim.rows)),
+            (Shape::KV, Shape::U) => Step::Unkey,
+            (Shape::KV, _) => Step::GroupByKey,
+            (Shape::KG, Shape::KV) if rng.chance(1, 2) => Step::FlatMap(GFun::Elems),
+            (Shape::KG, _) => Step::GroupsToList,
+            (Shape::KW, _) => Step::MapValuesBack(EFun::Id),
+            (Shape::L, _) => Step::FlatMap(GFun::Elems),
+        };
+        sim = sim.step(&s)?;
+        steps.push(s);
+    }
+    if sim.shape == target { Some(sim) } else { None }
+}
+
+/// every fan-out setting of interest for `parts` partitions
+pub fn fanouts(parts: usize) -> Vec<Option<usize>> {
+    let mut v = vec![None, Some(0), Some(1), Some(2), Some(3)];
+    for f in 4..=(parts + 1) {
+        v.push(Some(f));
+    }
+    v
+}
+
+/// random prefix (at most `nsteps` steps) + coercion to `target`; None if it cannot be reached
+pub fn gen_prefix_to(rng: &mut SplitMix64, src: &Src, o: &GenOpts, nsteps: usize, parts: usize,
+                     target: Shape) -> Option<(Vec<Step>, Sim)> {
+    let (mut steps, sim) = gen_program(rng, src, o, nsteps, parts);
+    let sim = coerce(rng, &sim, target, &mut steps)?;
+    if !o.reorder_class && reorder_changes(&steps) {
+        return None;
+    }
+    Some((steps, sim))
+}
+
+/// push `s` if it is well typed and stays inside the generator's bounds
+pub fn push_step(steps: &mut Vec<Step>, sim: &Sim, s: Step) -> Option<Sim> {
+    let next = sim.step(&s)?;
+    steps.push(s);
+    if reorder_changes(steps) {
+        steps.pop();
+        return None;
+    }
+    Some(next)
+}
+pub use self::gen_join as gen_join_step;
+
+/// the rules `gen_step` applies to a combine step, for a step chosen by the caller
+pub fn sim_allows(sim: &Sim, s: &Step, o: &GenOpts) -> bool {
+    let compares = match s {
+        Step::CombineValues(c) | Step::CombineValuesLifted(c) | Step::CombineGlobally(c, _, _) => {
+            matches!(c, Cid::Min | Cid::Max | Cid::TopK(_) | Cid::Distinct)
+        }
+        Step::Distinct | Step::DistinctPerKey | Step::TopKPerKey(_) => true,
+        _ => false,
+    };
+    if compares && !sim.comparable() {
+        return false;
+    }
+    if o.empty_minmax {
+        return true;
+    }
+    match s {
+        Step::CombineGlobally(Cid::Min | Cid::Max, _, _) => !sim.rows.is_empty(),
+        Step::CombineValuesLifted(Cid::Min | Cid::Max) => !keys_of(&sim.rows)
+            .iter()
+            .any(|k| values_of(k, &sim.rows).iter().all(|g| vlist(g).is_empty())),
+        _ => true,
+    }
+}
